@@ -782,6 +782,7 @@ class _InlineNewHelpers(_InlineMethods):
                 _scalar_replacement(fn, records)
                 _propagate_temporaries(fn)
             _fuse_filtering_generators(fn)
+            _explicit_star_kwargs(fn)
             # `if helper(..) and B:` became `t = <expanded helper>; if t and B:` -- the two conditions are tested one after the other
             for x in ast.walk(fn):
                 if isinstance(x, ast.If) and not x.orelse and isinstance(x.test, ast.BoolOp) and isinstance(x.test.op, ast.And) and \
@@ -1124,6 +1125,7 @@ class _InlineNewHelpers(_InlineMethods):
                             fieldvals[f_] = val2
                         if bad:
                             continue
+                        fieldvals.update({k_: copy.deepcopy(v_) for k_, v_ in info.get('consts', {}).items()})
                         m = copy.deepcopy(info['methods'][mname])
                         recv = m.args.args[0].arg
                         others = {k: v_ for k, v_ in info['methods'].items() if k != mname}
@@ -1215,12 +1217,17 @@ class _InlineNewHelpers(_InlineMethods):
                 continue
             ok = True
             methods = {}
+            consts = {}
             for st in cls.body:
                 if isinstance(st, ast.Expr) and isinstance(st.value, ast.Constant):
                     continue
                 if isinstance(st, ast.Pass):
                     continue
                 if isinstance(st, ast.Assign) and len(st.targets) == 1 and isinstance(st.targets[0], ast.Name) and st.targets[0].id == '__slots__':
+                    continue
+                if isinstance(st, ast.Assign) and len(st.targets) == 1 and isinstance(st.targets[0], ast.Name) and \
+                        (isinstance(st.value, ast.Constant) or (isinstance(st.value, (ast.Tuple, ast.List)) and all(isinstance(e, ast.Constant) for e in st.value.elts))):
+                    consts[st.targets[0].id] = st.value       # a class-level constant of literals
                     continue
                 if isinstance(st, ast.FunctionDef) and not st.decorator_list and st.args.args and not st.args.vararg and not st.args.kwarg and not st.args.posonlyargs:
                     methods[st.name] = st
@@ -1284,11 +1291,12 @@ class _InlineNewHelpers(_InlineMethods):
                     continue
                 recv = m.args.args[0].arg
                 for x in ast.walk(m):
-                    if isinstance(x, ast.Attribute) and isinstance(x.value, ast.Name) and x.value.id == recv and x.attr not in fields and x.attr not in methods:
+                    if isinstance(x, ast.Attribute) and isinstance(x.value, ast.Name) and x.value.id == recv and x.attr not in fields and x.attr not in methods and \
+                            not (x.attr in consts and isinstance(x.ctx, ast.Load)):
                         ok = False
-            if not ok:
+            if not ok or (set(consts) & (set(fields) | set(methods))):
                 continue
-            infos[cls.name] = {'cls': cls, 'kind': kind, 'fields': fields, 'methods': methods, 'init': init, 'init_vals': init_vals}
+            infos[cls.name] = {'cls': cls, 'kind': kind, 'fields': fields, 'methods': methods, 'init': init, 'init_vals': init_vals, 'consts': consts}
         self._class_infos = infos
         if not infos:
             return
@@ -1494,8 +1502,17 @@ class _InlineNewHelpers(_InlineMethods):
                     if got is not None:
                         out += got
                         continue
+            # `with helper(...) [as v]: BODY` with a new @contextmanager helper: the helper's statements with `v = <yielded value>; BODY` at its yield
+            if isinstance(st, ast.With) and len(st.items) == 1 and isinstance(st.items[0].context_expr, ast.Call) and \
+                    (st.items[0].optional_vars is None or isinstance(st.items[0].optional_vars, ast.Name)):
+                r = self._callee_any(st.items[0].context_expr, host)
+                if r is not None:
+                    got = self._expand_context_manager(st, host, r)
+                    if got is not None:
+                        out += got
+                        continue
             # `for x in helper(...): BODY` with a generator helper: the helper's statements with `x = <yielded value>; BODY` in place of each yield
-            if isinstance(st, ast.For) and isinstance(st.iter, ast.Call) and not st.orelse and isinstance(st.target, (ast.Name, ast.Tuple)):
+            if isinstance(st, ast.For) and isinstance(st.iter, ast.Call) and isinstance(st.target, (ast.Name, ast.Tuple)):
                 r = self._callee(st.iter, host)
                 if r is not None and self._eligible(host, r[0], generator=True):
                     got = self._expand_generator_loop(st, host, r)
@@ -1740,6 +1757,100 @@ class _InlineNewHelpers(_InlineMethods):
                     y._exp = self.counter
         return res or [ast.copy_location(ast.Pass(), st)]
 
+    @staticmethod
+    def _is_contextmanager(m):
+        return len(m.decorator_list) == 1 and ((isinstance(m.decorator_list[0], ast.Name) and m.decorator_list[0].id == 'contextmanager') or
+                                               (isinstance(m.decorator_list[0], ast.Attribute) and m.decorator_list[0].attr == 'contextmanager'))
+
+    def _callee_any(self, call, host):
+        """like _callee, but also finds a decorated new method / function (the caller decides what the decorator means)"""
+        r = self._callee(call, host)
+        if r is not None:
+            return r
+        return None
+
+    def _expand_context_manager(self, st, host, r):
+        """`with cm(...) as v: BODY` where cm is a new generator function under @contextmanager with one yield: an exception of BODY is raised at
+        the yield, so BODY simply stands where the yield stands.  Where the yield is not protected by a try, BODY must not leave early (the
+        manager would still run what follows its yield, the inlined text would not)."""
+        import copy
+        m, has_recv = r
+        if m is host or not self._is_contextmanager(m) or m.args.vararg or m.args.kwarg or len(m.body) > 60:
+            return None
+        ys = [x for x in ast.walk(m) if isinstance(x, (ast.Yield, ast.YieldFrom))]
+        ystmts = [x for x in ast.walk(m) if isinstance(x, ast.Expr) and isinstance(x.value, ast.Yield)]
+        if len(ys) != 1 or len(ystmts) != 1:
+            return None
+        if any(isinstance(x, (ast.FunctionDef, ast.Lambda, ast.Global, ast.Nonlocal, ast.Await)) and x is not m for x in ast.walk(m)):
+            return None
+        if any(isinstance(x, (ast.For, ast.While)) and any(z is ystmts[0] for z in ast.walk(x)) for x in ast.walk(m)):
+            return None
+        protected = any(isinstance(x, ast.Try) and any(z is ystmts[0] for b in x.body for z in ast.walk(b)) and x.finalbody for x in ast.walk(m))
+
+        def leaves(stmts, in_loop=False):
+            for s_ in stmts:
+                if isinstance(s_, ast.Return) or (not in_loop and isinstance(s_, (ast.Break, ast.Continue))):
+                    return True
+                if isinstance(s_, (ast.FunctionDef, ast.AsyncFunctionDef, ast.ClassDef)):
+                    continue
+                loop = in_loop or isinstance(s_, (ast.For, ast.While))
+                for fld in ('body', 'orelse', 'finalbody'):
+                    if leaves(getattr(s_, fld, []) or [], loop):
+                        return True
+                for h_ in getattr(s_, 'handlers', []):
+                    if leaves(h_.body, loop):
+                        return True
+            return False
+        if not protected and leaves(st.body):
+            return None
+
+        class _Y(ast.NodeTransformer):
+            def visit_Expr(self_, node):
+                if isinstance(node.value, ast.Yield):
+                    a = ast.copy_location(ast.Assign(targets=[ast.Name(id='__yielded__', ctx=ast.Store())], value=node.value.value or ast.Constant(value=None), type_comment=None), node)
+                    return a
+                return node
+        m2 = _Y().visit(copy.deepcopy(m))
+        m2.decorator_list = []
+        ast.fix_missing_locations(m2)
+        if any(isinstance(x, ast.Return) for x in ast.walk(m2)):
+            return None
+        try:
+            res = self._expand(st, st.items[0].context_expr, None, host, m2, has_recv=has_recv, on_return=lambda ret: [])
+        except Exception:
+            return None
+        var = st.items[0].optional_vars
+        placed = [0]
+
+        def place(stmts):
+            out_ = []
+            for s_ in stmts:
+                if isinstance(s_, ast.Assign) and len(s_.targets) == 1 and isinstance(s_.targets[0], ast.Name) and s_.targets[0].id == '__yielded__':
+                    if var is not None:
+                        out_.append(ast.copy_location(ast.Assign(targets=[ast.Name(id=var.id, ctx=ast.Store())], value=s_.value, type_comment=None), s_))
+                    elif not isinstance(s_.value, (ast.Constant, ast.Name)):
+                        out_.append(ast.copy_location(ast.Expr(value=s_.value), s_))
+                    out_ += st.body
+                    placed[0] += 1
+                    continue
+                for fld in ('body', 'orelse', 'finalbody'):
+                    sub = getattr(s_, fld, None)
+                    if isinstance(sub, list) and not isinstance(s_, (ast.FunctionDef, ast.AsyncFunctionDef, ast.ClassDef)):
+                        setattr(s_, fld, place(sub))
+                for h_ in getattr(s_, 'handlers', []):
+                    h_.body = place(h_.body)
+                out_.append(s_)
+            return out_
+        res = place(res)
+        if placed[0] != 1:
+            return None
+        for x in res:
+            ast.fix_missing_locations(x)
+        self.touched[id(host)] = host
+        self.expanded.add(id(m))
+        self._import_globals_of(m)
+        return res
+
     def _expand_generator_loop(self, st, host, r):
         """the consumer's loop body runs once per yield, at the yield: a `break` of the consumer leaves the whole expanded block, a `continue`
         goes on with the helper (only possible where the yield is the last thing its loop does), the helper's `return` ends the loop"""
@@ -1839,6 +1950,8 @@ class _InlineNewHelpers(_InlineMethods):
                 out_.append(s_)
             return out_
         res = place(res)
+        # `for ... else`: the else part runs when the helper is exhausted, i.e. after its statements; a `break` of the body jumps past it
+        res += st.orelse
         if has_break:
             blk = ast.copy_location(ast.If(test=ast.copy_location(ast.Constant(value=True), st), body=res, orelse=[]), st)
             blk._inlined_block_id = bid
@@ -2182,6 +2295,47 @@ def _loop_over_generator(fn):
                 if a is not None:
                     del lst[a]
                 return _loop_over_generator(fn)
+
+
+def _explicit_star_kwargs(fn):
+    """`f(a, **{'k': v, 'l': w})` -- the dictionary written in the call, or kept in a local that is bound once to such a literal of plain values
+    and read nowhere else -- is `f(a, k=v, l=w)`"""
+    counts = {}
+    for y in ast.walk(fn):
+        if isinstance(y, ast.Name):
+            counts[y.id] = counts.get(y.id, 0) + 1
+
+    def literal(d):
+        return isinstance(d, ast.Dict) and d.keys and all(isinstance(k, ast.Constant) and isinstance(k.value, str) and k.value.isidentifier() for k in d.keys)
+    binds = {}
+    for y in ast.walk(fn):
+        if isinstance(y, ast.Assign) and len(y.targets) == 1 and isinstance(y.targets[0], ast.Name) and literal(y.value) and counts.get(y.targets[0].id) == 2 and \
+                all(_is_pure_path(v) or isinstance(v, ast.Constant) for v in y.value.values):
+            binds[y.targets[0].id] = y
+    used = set()
+    for c in ast.walk(fn):
+        if not isinstance(c, ast.Call):
+            continue
+        new_kw = []
+        for k in c.keywords:
+            d = None
+            if k.arg is None and literal(k.value):
+                d = k.value
+            elif k.arg is None and isinstance(k.value, ast.Name) and k.value.id in binds:
+                d = binds[k.value.id].value
+                used.add(k.value.id)
+            if d is not None and not ({kk.value for kk in d.keys} & {x.arg for x in c.keywords if x.arg}):
+                new_kw += [ast.copy_location(ast.keyword(arg=kk.value, value=v), k) for kk, v in zip(d.keys, d.values)]
+            else:
+                new_kw.append(k)
+        c.keywords = new_kw
+    if used:
+        for x in ast.walk(fn):
+            for fld in ('body', 'orelse', 'finalbody'):
+                lst = getattr(x, fld, None)
+                if isinstance(lst, list):
+                    lst[:] = [st for st in lst if not (isinstance(st, ast.Assign) and len(st.targets) == 1 and isinstance(st.targets[0], ast.Name) and st.targets[0].id in used and binds.get(st.targets[0].id) is st)] or [ast.Pass()]
+        ast.fix_missing_locations(fn)
 
 
 def _fuse_filtering_generators(fn):
